@@ -62,6 +62,10 @@ def _run(rec):
         before = copy.deepcopy(x)
         if prior == "fresh":
             w = subj.encode_py(x)
+        elif prior == "nocopy":
+            # the FIRST call passes a dialect with no_copy_collections; the judged call is the plain one afterwards
+            x.to_dict(dialect=subj.dialect_for(dterm))
+            w = x.to_dict()
         else:
             # the same dialect object is first used through the binary format, then through to_dict
             D = subj.dialect_for(dterm)
